@@ -8,7 +8,9 @@ import (
 	"net"
 	"net/netip"
 	"net/url"
+	"os"
 	"path"
+	"path/filepath"
 	"sort"
 	"strings"
 	"testing"
@@ -60,6 +62,53 @@ type C10Case struct {
 	// Vars: 1 = the file has a vars block nobody references, 2 = the pull paths are written through a
 	// variable ({vars.PB}/rN). Neither changes what the file means.
 	Vars int `json:"vars,omitempty"`
+	// Phase2: after the requests above the process gets a second route table through a real reload and
+	// answers more requests, judged by the same independent resolver. Kind "files": the configuration
+	// text stays the same - header-match values and remote_ip values are written as {file.PATH}
+	// placeholders in both phases and only the files change; kind "edit": the text changes.
+	Phase2 *C10Phase2 `json:"phase2,omitempty"`
+}
+
+type C10Phase2 struct {
+	Kind   string      `json:"kind"`
+	Routes []RouteSpec `json:"routes"`
+	Reqs   []FReq      `json:"reqs"`
+}
+
+// c10FileBacked writes the routes' own header-match values and remote_ip values as {file.} placeholders
+// (one file per value, numbered in order of appearance) and returns the text and the files' contents.
+func c10FileBacked(routes []RouteSpec, shared []SharedMatch, dir string) (string, []string) {
+	cp := make([]RouteSpec, len(routes))
+	var vals []string
+	mark := func(v string) string {
+		vals = append(vals, v)
+		return fmt.Sprintf("__FV%d__", len(vals)-1)
+	}
+	for i, r := range routes {
+		r.Headers = append([][2]string(nil), r.Headers...)
+		for k := range r.Headers {
+			r.Headers[k][1] = mark(r.Headers[k][1])
+		}
+		r.RemoteIPs = append([]string(nil), r.RemoteIPs...)
+		for k := range r.RemoteIPs {
+			r.RemoteIPs[k] = mark(r.RemoteIPs[k])
+		}
+		cp[i] = r
+	}
+	text := c10Text(cp, shared...)
+	for k := range vals {
+		text = strings.ReplaceAll(text, q(fmt.Sprintf("__FV%d__", k)), q(fmt.Sprintf("{file.%s/v%d}", dir, k)))
+	}
+	return text, vals
+}
+
+func c10WriteVals(dir string, vals []string) error {
+	for k, v := range vals {
+		if err := os.WriteFile(fmt.Sprintf("%s/v%d", dir, k), []byte(v), 0o600); err != nil {
+			return err
+		}
+	}
+	return nil
 }
 
 // c10Src is the configuration text of the case.
@@ -76,7 +125,10 @@ func (c C10Case) src() string {
 
 // effective returns the routes with the criteria of their referenced shared matcher folded in:
 // what the oracle and the request generator work with.
-func (c C10Case) effective() []RouteSpec {
+func (c C10Case) effective() []RouteSpec { return c10Effective(c.Routes, c.Shared) }
+
+func c10Effective(routes []RouteSpec, shared []SharedMatch) []RouteSpec {
+	c := C10Case{Routes: routes, Shared: shared}
 	out := make([]RouteSpec, len(c.Routes))
 	for i, r := range c.Routes {
 		if r.Ref > 0 && r.Ref <= len(c.Shared) && r.inbound() {
@@ -627,6 +679,49 @@ func genC10Case() *rapid.Generator[C10Case] {
 		reqGen := rapid.Custom(func(t *rapid.T) FReq { return genC10Req(t, routes) })
 		c.Reqs = rapid.SliceOfN(reqGen, 1, 8).Draw(t, "reqs")
 		c.Vars = rapid.SampledFrom([]int{0, 0, 0, 1, 2}).Draw(t, "vars")
+		switch rapid.IntRange(0, 5).Draw(t, "phase2") {
+		case 0: // same text, other file contents
+			c.Vars = 0
+			p2 := &C10Phase2{Kind: "files"}
+			for _, r := range c.Routes {
+				r.Headers = append([][2]string(nil), r.Headers...)
+				for k := range r.Headers {
+					r.Headers[k][1] = rapid.SampledFrom(c10HdrVal).Draw(t, "hv2")
+				}
+				r.RemoteIPs = append([]string(nil), r.RemoteIPs...)
+				for k := range r.RemoteIPs {
+					r.RemoteIPs[k] = rapid.SampledFrom(c10IPs).Draw(t, "ip2")
+				}
+				p2.Routes = append(p2.Routes, r)
+			}
+			c.Phase2 = p2
+		case 1: // another text: routes reordered, dropped, moved to another channel
+			c.Vars = 0
+			p2 := &C10Phase2{Kind: "edit", Routes: append([]RouteSpec(nil), c.Routes...)}
+			switch rapid.IntRange(0, 2).Draw(t, "edit2") {
+			case 0:
+				for i, j := 0, len(p2.Routes)-1; i < j; i, j = i+1, j-1 {
+					p2.Routes[i], p2.Routes[j] = p2.Routes[j], p2.Routes[i]
+				}
+			case 1:
+				if len(p2.Routes) > 1 {
+					p2.Routes = p2.Routes[1:]
+				}
+			case 2:
+				k := rapid.IntRange(0, len(p2.Routes)-1).Draw(t, "flip")
+				if p2.Routes[k].inbound() {
+					p2.Routes[k].Channel, p2.Routes[k].Mode = "internal", "pull"
+				} else {
+					p2.Routes[k].Channel = "bare"
+				}
+			}
+			c.Phase2 = p2
+		}
+		if c.Phase2 != nil {
+			routes2 := c10Effective(c.Phase2.Routes, c.Shared)
+			reqGen2 := rapid.Custom(func(t *rapid.T) FReq { return genC10Req(t, routes2) })
+			c.Phase2.Reqs = rapid.SliceOfN(reqGen2, 1, 8).Draw(t, "reqs2")
+		}
 		return c
 	})
 }
@@ -654,7 +749,20 @@ func runC10(c C10Case, tolerate bool) *fOutcome {
 	out := newFOutcome()
 	src := c.src()
 	eff := c.effective()
-	w, err := newFrontWorld(src, worldOpts{})
+	valDir := ""
+	if c.Phase2 != nil && c.Phase2.Kind == "files" {
+		valDir = filepath.Join(fScratch(), fmt.Sprintf("c10v-%d-%d", os.Getpid(), fSeq.Add(1)))
+		_ = os.MkdirAll(valDir, 0o755)
+		defer os.RemoveAll(valDir)
+		var vals []string
+		src, vals = c10FileBacked(c.Routes, c.Shared, valDir)
+		if err := c10WriteVals(valDir, vals); err != nil {
+			out.Failure = ffail("HARNESS", "write-values", 0, "%v", err)
+			return out
+		}
+		out.Labels["values-through-file-placeholders"] = true
+	}
+	w, err := newFrontWorld(src, worldOpts{withFile: c.Phase2 != nil})
 	if err != nil {
 		// a generated config the compiler refuses is a generator problem unless the refusal is
 		// about a documented constraint we generate on purpose (none here)
@@ -676,119 +784,152 @@ func runC10(c C10Case, tolerate bool) *fOutcome {
 		}
 	}
 	readings := c10AllReadings()
-	for i, req := range c.Reqs {
-		before, err := w.dump()
-		if err != nil {
-			out.Failure = ffail("HARNESS", "dump", i, "%v", err)
-			return out
-		}
-		rec := serve(w.ingress, req)
-		after, err := w.dump()
-		if err != nil {
-			out.Failure = ffail("HARNESS", "dump", i, "%v", err)
-			return out
-		}
-		added := newMsgs(before, after)
-		exp := c10Expect(eff, req, readings[0])
-		agree := true
-		for _, rd := range readings[1:] {
-			if e := c10Expect(eff, req, rd); e != exp {
-				agree = false
-				break
+	routes := c.Routes
+	judge := func(reqs []FReq, stepBase int) bool {
+		for k, req := range reqs {
+			i := stepBase + k
+			before, err := w.dump()
+			if err != nil {
+				out.Failure = ffail("HARNESS", "dump", i, "%v", err)
+				return false
 			}
-		}
-		// classification for the non-trivial rule
-		pathMatching, firstNonInbound := 0, false
-		cleaned := path.Clean(req.Path)
-		for _, r := range c.Routes {
-			if specMatchPath(cleaned, r.Path) {
-				if pathMatching == 0 && !r.inbound() {
-					firstNonInbound = true
-				}
-				pathMatching++
+			rec := serve(w.ingress, req)
+			after, err := w.dump()
+			if err != nil {
+				out.Failure = ffail("HARNESS", "dump", i, "%v", err)
+				return false
 			}
-		}
-		if pathMatching >= 2 {
-			out.Labels["overlapping-paths"] = true
-			out.NonTriv = true
-		}
-		if firstNonInbound {
-			out.Labels["first-path-match-not-inbound"] = true
-			out.NonTriv = true
-		}
-		if !agree {
-			out.Labels["ambiguous-reading"] = true
-			// even an ambiguous request must leave the queue alone unless it was accepted
-			if rec.Code != 202 && len(added) > 0 {
-				out.Failure = ffail("C10", "rejected-but-enqueued", i, "request %s answered %d but %d messages were stored", reqStr(req), rec.Code, len(added))
-				return out
-			}
-			continue
-		}
-		out.Labels[fmt.Sprintf("expect-%d", exp.status)] = true
-		sig := ""
-		// known-finding signature: a route declared outbound/internal was resolved from ingress
-		if rec.Code == 202 && len(added) > 0 {
-			for _, r := range c.Routes {
-				if r.Path == added[0].Route && !r.inbound() {
-					sig = "ingress-reaches-non-inbound-route"
+			added := newMsgs(before, after)
+			exp := c10Expect(eff, req, readings[0])
+			agree := true
+			for _, rd := range readings[1:] {
+				if e := c10Expect(eff, req, rd); e != exp {
+					agree = false
+					break
 				}
 			}
-		}
-		mk := func(clause, format string, args ...any) *verifkit.Failure {
-			f := ffail("C10", clause, i, format, args...)
-			f.Sig = sig
-			return f
-		}
-		var f *verifkit.Failure
-		switch {
-		case rec.Code != exp.status:
-			f = mk("status", "request %s: status %d, expected %d (route %q) for routes %s", reqStr(req), rec.Code, exp.status, exp.route, routesStr(eff))
-		case exp.status == 202:
-			wantTargets := []string{}
-			for ri, r := range c.Routes {
-				if r.Path == exp.route {
-					wantTargets = r.targets(ri)
+			// classification for the non-trivial rule
+			pathMatching, firstNonInbound := 0, false
+			cleaned := path.Clean(req.Path)
+			for _, r := range routes {
+				if specMatchPath(cleaned, r.Path) {
+					if pathMatching == 0 && !r.inbound() {
+						firstNonInbound = true
+					}
+					pathMatching++
 				}
 			}
-			var gotTargets []string
-			for _, m := range added {
-				if m.Route != exp.route {
-					f = mk("wrong-route", "request %s stored under route %q, expected %q", reqStr(req), m.Route, exp.route)
+			if pathMatching >= 2 {
+				out.Labels["overlapping-paths"] = true
+				out.NonTriv = true
+			}
+			if firstNonInbound {
+				out.Labels["first-path-match-not-inbound"] = true
+				out.NonTriv = true
+			}
+			if !agree {
+				out.Labels["ambiguous-reading"] = true
+				// even an ambiguous request must leave the queue alone unless it was accepted
+				if rec.Code != 202 && len(added) > 0 {
+					out.Failure = ffail("C10", "rejected-but-enqueued", i, "request %s answered %d but %d messages were stored", reqStr(req), rec.Code, len(added))
+					return false
 				}
-				gotTargets = append(gotTargets, m.Target)
+				continue
 			}
-			sort.Strings(gotTargets)
-			sort.Strings(wantTargets)
-			if f == nil && strings.Join(gotTargets, " ") != strings.Join(wantTargets, " ") {
-				f = mk("wrong-targets", "request %s stored for targets %v, expected %v", reqStr(req), gotTargets, wantTargets)
-			}
-		default:
-			if len(added) > 0 || dumpKey(before) != dumpKey(after) {
-				f = mk("rejected-but-changed", "request %s answered %d but the queue changed", reqStr(req), rec.Code)
-			}
-			if f == nil && exp.status == 405 {
-				var got []string
-				for _, m := range strings.Split(rec.Header().Get("Allow"), ",") {
-					if m = strings.TrimSpace(m); m != "" {
-						got = append(got, m)
+			out.Labels[fmt.Sprintf("expect-%d", exp.status)] = true
+			sig := ""
+			// known-finding signature: a route declared outbound/internal was resolved from ingress
+			if rec.Code == 202 && len(added) > 0 {
+				for _, r := range routes {
+					if r.Path == added[0].Route && !r.inbound() {
+						sig = "ingress-reaches-non-inbound-route"
 					}
 				}
-				sort.Strings(got)
-				if strings.Join(got, ",") != exp.allow {
-					f = mk("allow-header", "request %s: Allow %q, expected %q", reqStr(req), strings.Join(got, ","), exp.allow)
+			}
+			mk := func(clause, format string, args ...any) *verifkit.Failure {
+				f := ffail("C10", clause, i, format, args...)
+				f.Sig = sig
+				return f
+			}
+			var f *verifkit.Failure
+			switch {
+			case rec.Code != exp.status:
+				f = mk("status", "request %s: status %d, expected %d (route %q) for routes %s", reqStr(req), rec.Code, exp.status, exp.route, routesStr(eff))
+			case exp.status == 202:
+				wantTargets := []string{}
+				for ri, r := range routes {
+					if r.Path == exp.route {
+						wantTargets = r.targets(ri)
+					}
+				}
+				var gotTargets []string
+				for _, m := range added {
+					if m.Route != exp.route {
+						f = mk("wrong-route", "request %s stored under route %q, expected %q", reqStr(req), m.Route, exp.route)
+					}
+					gotTargets = append(gotTargets, m.Target)
+				}
+				sort.Strings(gotTargets)
+				sort.Strings(wantTargets)
+				if f == nil && strings.Join(gotTargets, " ") != strings.Join(wantTargets, " ") {
+					f = mk("wrong-targets", "request %s stored for targets %v, expected %v", reqStr(req), gotTargets, wantTargets)
+				}
+			default:
+				if len(added) > 0 || dumpKey(before) != dumpKey(after) {
+					f = mk("rejected-but-changed", "request %s answered %d but the queue changed", reqStr(req), rec.Code)
+				}
+				if f == nil && exp.status == 405 {
+					var got []string
+					for _, m := range strings.Split(rec.Header().Get("Allow"), ",") {
+						if m = strings.TrimSpace(m); m != "" {
+							got = append(got, m)
+						}
+					}
+					sort.Strings(got)
+					if strings.Join(got, ",") != exp.allow {
+						f = mk("allow-header", "request %s: Allow %q, expected %q", reqStr(req), strings.Join(got, ","), exp.allow)
+					}
 				}
 			}
-		}
-		if f != nil {
-			if f.Sig != "" && tolerate && verifkit.Known(f.Sig) {
-				out.Known = append(out.Known, f.Sig)
-				return out
+			if f != nil {
+				if f.Sig != "" && tolerate && verifkit.Known(f.Sig) {
+					out.Known = append(out.Known, f.Sig)
+					return false
+				}
+				if stepBase > 0 {
+					f.Detail = "after a reload (" + c.Phase2.Kind + "): " + f.Detail
+				}
+				out.Failure = f
+				return false
 			}
-			out.Failure = f
+		}
+		return true
+	}
+	if !judge(c.Reqs, 0) || c.Phase2 == nil {
+		return out
+	}
+	// ---- phase 2: a second route table arrives through a real reload
+	p2 := c.Phase2
+	switch p2.Kind {
+	case "files":
+		_, vals := c10FileBacked(p2.Routes, c.Shared, valDir)
+		if err := c10WriteVals(valDir, vals); err != nil {
+			out.Failure = ffail("HARNESS", "write-values", 0, "%v", err)
+			return out
+		}
+	default:
+		if err := os.WriteFile(w.cfgPath, []byte(c10Text(p2.Routes, c.Shared...)), 0o600); err != nil {
+			out.Failure = ffail("HARNESS", "write-config", 0, "%v", err)
 			return out
 		}
 	}
+	if !w.reload() {
+		out.Labels["phase2-reload-refused"] = true
+		return out
+	}
+	out.Labels["phase2-"+p2.Kind] = true
+	routes, eff = p2.Routes, c10Effective(p2.Routes, c.Shared)
+	judge(p2.Reqs, 1000)
 	return out
 }
 
